@@ -1060,11 +1060,17 @@ def gen_group_directed(rng):
     fld, ty = rng.choice([("RekeyTo", "Any"), ("RekeyTo", "Pay"), ("CloseRemainderTo", "Pay"), ("AssetCloseTo", "Axfer"), ("Fee", "Any"), ("Fee", "Pay")])
     check = ["int 1000", "<="] if fld == "Fee" else ["global ZeroAddress", "=="]
     lines, tl, progs = [], [], []
+    routes = []      # (target member, "self" | "rel" | ("abs", reader)) : an unconditional check of the target's field on the
+                     # reader's only accepting exit, through a route that the configuration lists ("abs": iff the target's
+                     # absolute index is configured -- decided after the loop)
+    has_abs = {}
     for k in range(ntx):
         kind = rng.choice(["trivial", "trivial", "self", "rel", "rel", "abs", "random", "self-sub", "rel-sub", "abs-sub"])
         others = [o for o in range(ntx) if o != k]
         o = rng.choice(others)
         rel = []
+        if kind == "self":
+            routes.append((k, "self"))
         if kind == "trivial":
             prog = ["#pragma version 6", "int 1", "return"]
         elif kind == "self":
@@ -1074,8 +1080,10 @@ def gen_group_directed(rng):
             prog = ["#pragma version 6", "txn GroupIndex", f"int {abs(off)}", "+" if off >= 0 else "-", f"gtxns {fld}"] + check + ["assert", "int 1", "return"]
             if rng.random() < 0.85:
                 rel.append(f"{off}={ids[o]}")
+                routes.append((o, "rel"))
         elif kind == "abs":
             prog = ["#pragma version 6", f"gtxn {pos[o]} {fld}"] + check + ["assert", "int 1", "return"]
+            routes.append((o, "abs"))
         elif kind in ("self-sub", "rel-sub", "abs-sub"):
             # the check sits on the main exit, but a subroutine entered when Amount == 5 approves without any check
             if kind == "self-sub":
@@ -1097,11 +1105,13 @@ def gen_group_directed(rng):
         lines += prog
         lines.append("P 0")
         ab = str(pos[k]) if rng.random() < 0.5 else "-"
+        has_abs[k] = ab != "-"
         tl.append(f"T {ids[k]} {rng.choice([ty, ty, 'Any'])} 1 {k} - {ab} {','.join(rel) if rel else '-'}")
         progs.append("\n".join(prog))
     order = list(range(ntx))
     rng.shuffle(order)
-    DIRECTED_META["\n".join(lines + [tl[k] for k in order])] = {"pos": pos, "ids": ids, "field": fld, "type": ty, "programs": progs}
+    cleared = sorted({ids[t] for t, r in routes if r != "abs" or has_abs[t]})
+    DIRECTED_META["\n".join(lines + [tl[k] for k in order])] = {"pos": pos, "ids": ids, "field": fld, "type": ty, "programs": progs, "cleared": cleared}
     return "\n".join(lines + [tl[k] for k in order])
 
 
@@ -1125,6 +1135,14 @@ def group_semantics_oracle(meta, verdict):
     size = max(pos) + 1
     tenum = {"CloseRemainderTo": 1, "AssetCloseTo": 4}.get(fld, 1 if ty in ("Pay", "Any") else 4)
     out = []
+    # second half of C13 (by construction of the directed configuration): a member whose field is checked unconditionally on
+    # the only accepting exit of its own logic-sig, or of another member's logic-sig that reads it through a CONFIGURED
+    # offset / absolute index, is cleared
+    for tid in meta.get("cleared", []):
+        if tid in verdict.get(det, []):
+            out.append((f"{tid} is reported by {det} although its {fld} is checked at every accepting exit by its own logic-sig or by a member reading it through the configured offset / absolute index (reported: {verdict.get(det)})",
+                        {"positions": dict(zip(ids, pos)), "cleared_by_construction": meta.get("cleared"), "field": fld}))
+            return out
     try:
         parsed = [avm.Program(t) for t in progs]
     except Exception:  # pylint: disable=broad-except
@@ -1201,7 +1219,17 @@ def directed_group_fixed():
             rel = ",".join(f"{off}={ids[t]}" for off, t in rels) if rels else "-"
             tl.append(f"T {ids[k]} {ty} 1 {k} - {ab if ab is not None else '-'} {rel}")
         text = "\n".join(lines + [tl[k] for k in order])
-        DIRECTED_META[text] = {"pos": list(range(len(members))), "ids": ids, "field": fld, "type": ty, "programs": progs}
+        cleared = set()
+        for k, (kind, ab, rels) in enumerate(members):
+            if kind == "trivial" or kind[0] in ("relnocheck", "relsub"):
+                continue
+            if kind[0] == "rel":
+                cleared |= {ids[t] for off, t in rels if off == kind[1]}
+            elif kind[0] == "abs":
+                cleared |= {ids[t] for t, (_k2, ab2, _r2) in enumerate(members) if ab2 == kind[1]}
+            else:
+                cleared.add(ids[k])
+        DIRECTED_META[text] = {"pos": list(range(len(members))), "ids": ids, "field": fld, "type": ty, "programs": progs, "cleared": sorted(cleared)}
         out.append(text)
 
     for fld, ty in (("RekeyTo", "Any"), ("CloseRemainderTo", "Pay"), ("AssetCloseTo", "Axfer"), ("Fee", "Any")):
@@ -1216,6 +1244,9 @@ def directed_group_fixed():
             [("trivial", None, []), (("relsub", -1), None, [(-1, 0)])],
             # T1 guards T2 at +1, T0 unguarded, nobody has an absolute index
             [("trivial", None, []), (("rel", 1), None, [(1, 2)]), ("trivial", None, [])],
+            # target and reader BOTH carry an absolute index and the offset between them is configured as well
+            [("trivial", 0, []), (("rel", -1), 1, [(-1, 0)])],
+            [("trivial", 0, []), ("trivial", 1, []), (("rel", -2), 2, [(-2, 0)])],
         ]
         for members in shapes:
             for order in itertools.permutations(range(len(members))):
